@@ -437,6 +437,11 @@ def run_check(mod, tier, seed, replay=None):
         if not okc:
             out.failures.append(dict(kind="coqchk", detail=chk_tail))
     theorems = props["theorems"]
+    if not ok or gen_errs:
+        # dependencies did not rebuild: whatever coqc found were stale .vo files
+        for t in theorems:
+            t["compiled"] = False
+            t["note"] = "dependencies failed to rebuild on this run"
     obligations = len(theorems)
     discharged = sum(1 for t in theorems if t.get("compiled"))
     axioms = sorted({a for t in theorems for a in (t["axioms"] or [])})
